@@ -2128,6 +2128,20 @@ TRUSTED = [
 ]
 
 
+def _explained_by_acceptance_finding(r):
+    import re
+    from .common import load_findings
+    try:
+        text = canonical(r, "accepted-nonconforming")
+    except Exception:
+        return False
+    for prop in ("C05", "C06"):
+        for f in load_findings(prop):
+            if f.get("match") and re.search(f["match"], text):
+                return True
+    return False
+
+
 def run_check(pid, tier, replay, theorems, targets, module, kinds, profile, with_python, extra=None):
     import json, time
     from .common import Check, build_harness, coq_make
@@ -2175,6 +2189,10 @@ def run_check(pid, tier, replay, theorems, targets, module, kinds, profile, with
                 n["over_rejected_conforming"] = n.get("over_rejected_conforming", 0) + 1
                 n.setdefault("over_rejected_examples", []).append(
                     [r.origin, normalise_diag(r.impl[1].split(": ", 1)[-1])])
+            elif r.impl[0] == "OK" and _explained_by_acceptance_finding(r):
+                # accepted although the model (and the specification) refuse it, in a class that C05 / C06 already record
+                # as an acceptance defect (same canonical case text, same patterns): not a new disagreement
+                n["corr_known"] = n.get("corr_known", 0) + 1
             elif r.known:
                 # accepted, refused by the model, and the run-time oracle has attributed the case to a known finding
                 # (a place where the implementation does not check what the model's rule asks for: D93, D94 ..)
